@@ -1,23 +1,55 @@
-"""C19 - see DESIGN.md §2 C19.  Deductive parts (contracts/) are added to this module as they are built; the bounded stand-in is checks/b19.py."""
+"""C19 - results identical across processes, hash seeds and repeated calls (DESIGN §1.7, §2 C19).
+H: every hash() argument in the anchored files is built from ints, bools, None and tuples of those (no str / bytes / float / identity hash),
+so no PYTHONHASHSEED-dependent value reaches an ordering decision or a stored identifier; cached = uncached is C13's coherence (F);
+B (checks/b19.py): 35 observables across 5 interpreter processes with different hash seeds, cached/uncached, original/copy."""
 from vlib import env
-from checks.common import bounded_part, want, contract_sources, make_replay, t_oblig
-from pysym.harness import run_cases
+from checks.common import bounded_part, want, make_replay, t_oblig
 
 LEVEL = 'other'
-DEDUCTIVE = []          # contract modules run by engine P for this property
-FINISH = dict(rule='see checks/b19.py RULE / run.bound entries', explanation='bounded stand-in (engine B) of the contracts of DESIGN §2 C19; '
-              'labelled bounded, never counted as proved', trusted_base=['CPython 3.12', 'oracles/*', 'RDKit where stated'])
 replay = make_replay('C19')
-
-
-def deductive(run):
-    for mod in DEDUCTIVE:
-        run_cases(run, mod)
+FILES = ['chython/periodictable/base/element.py', 'chython/periodictable/base/dynamic.py', 'chython/containers/bonds.py', 'chython/algorithms/morgan.py',
+         'chython/algorithms/fingerprints/__init__.py', 'chython/algorithms/fingerprints/morgan.py', 'chython/algorithms/fingerprints/linear.py',
+         'chython/algorithms/smiles.py', 'chython/containers/reaction.py', 'chython/algorithms/rings.py', 'chython/algorithms/isomorphism.py',
+         'chython/algorithms/stereo.py', 'chython/containers/graph.py', 'chython/containers/molecule.py', 'chython/containers/cgr.py']
+# container-level __hash__ is hash(str(self)) by design: seed dependent, used for set/dict membership only; what the property lists
+# (strings, orders, ring sets, fingerprints, mappings, pack bytes) never goes through it - the bounded part watches for leaks
+EXEMPT = {('chython/algorithms/smiles.py', 'Smiles.__hash__'), ('chython/containers/reaction.py', 'ReactionContainer.__hash__')}
+OK_LEAVES = {'int', 'bool', 'none', 'obj:atom', 'obj:bond', 'obj:self'}
+FINISH = dict(
+    rule='H: one obligation per hash() call site of the anchored files; B: (molecule, observable) pairs across processes',
+    explanation='A structural type inference over the AST (declared facts: source annotations and the attribute-type table derived from the setters) '
+                'shows that every hashed value is a tuple tree of ints / bools / None; CPython hashes those independently of PYTHONHASHSEED. '
+                'Objects hashed as atoms or bonds go through their own __hash__, which is a site of its own.',
+    trusted_base=['CPython: hash of int / bool / None / tuples thereof is seed independent (None: constant since 3.12)', 'frames/hashtypes.py',
+                  'attribute types follow the setters isinstance guards'])
 
 
 def main(run):
     env.setup()
-    if want(run, 'P') or want(run, 'T'):
-        deductive(run)
+    if want(run, 'H'):
+        from frames import hashtypes as H
+        n = 0
+        for rel in FILES:
+            try:
+                ss = H.sites(rel)
+            except FileNotFoundError:
+                continue
+            run.under_contract(rel, 'hash() call sites', '\n'.join(f'{q}:{txt}' for q, ln, lv, txt in ss))
+            for q, ln, lv, txt in ss:
+                n += 1
+                if (rel, q) in EXEMPT:
+                    run.oblig(f'hash-site[{rel}:{q}] exempt: container hash of the canonical string (membership only)', True, 'H', 'typing', 0.0)
+                    continue
+                bad = sorted(str(x) for x in lv - OK_LEAVES)
+                k = None
+                if bad:
+                    k = run.violation(f'hash-input:{rel}:{q}', f'{rel}:{ln} {q}: hash({txt[:80]}) takes a value of type {bad} - seed dependent or untypable',
+                                      witness={'site': f'{rel}:{ln}', 'argument': txt, 'leaf_types': sorted(map(str, lv))}, obligation=f'hash-site[{rel}:{q}]',
+                                      found_input=False)
+                run.oblig(f'hash-site[{rel}:{q}@{txt[:40]}]', not bad, 'H', 'typing', 0.0, known=(k == 'known'))
+        if n == 0:
+            raise RuntimeError('engine H found no hash() site: vacuous')
     bounded_part(run, 'C19')
+    run.assume('set-iteration tie-breaks (min over an int set, set.pop) depend on the int values and insertion history only - covered by the bounded part',
+               'third-party code (lazy_object_proxy, numpy, lxml) is assumed deterministic')
     return FINISH
